@@ -45,6 +45,13 @@ OrdOK(r) ==
     /\ r.hash = r.shash
     /\ Len(r.hash) >= 2 /\ r.hash[1] = 1 /\ r.hash[2] = Len(r.a)
     /\ r.found_hash = (r.a = r.b) /\ r.found_btree = (r.a = r.b)
+    \* ... and what the same elements feed as a slice of native values (nested arrays as [[u8; 2]])
+    /\ r.hash = r.nhash
+    \* the provided methods of Ord follow cmp: max is the second operand unless the first is greater, min the first
+    \* unless it is greater (element codes; for the zero-sized nested type every code is -1 on both sides)
+    /\ (\A i \in DOMAIN r.max : r.max[i] >= 0) =>
+          /\ r.max = (IF r.cmp = 1 THEN r.a ELSE r.b)
+          /\ r.min = (IF r.cmp = 1 THEN r.b ELSE r.a)
 
 \* Debug output under any flags equals the slice's (the slice is the oracle; TLA+ carries the equality)
 DbgOK(r) == r.arr = r.slice
